@@ -78,7 +78,8 @@ type Ctx struct {
 	violByRul map[string]int
 	Verbose   bool
 
-	caseStart atomic.Int64
+	sinceStats int
+	caseStart  atomic.Int64
 	// CaseTimeout: wall-clock watchdog per case (0: 120 s).  Its firing is
 	// never a verdict: the driver records the case as not judged.
 	CaseTimeout time.Duration
@@ -140,11 +141,19 @@ func NewCtx(prop, tier string, seed int64, batch, nbatch int, outDir string, par
 // Close flushes everything and writes the final stats record.
 func (c *Ctx) Close() {
 	c.Intent("", "")
-	c.emit(map[string]any{"kind": "stats", "batch": c.Batch, "counters": c.Counters, "samples": c.samples, "nontrivial_local": len(c.seen)})
+	c.emitStats()
 	c.ev.Flush()
 	c.evFile.Close()
 	c.hashes.Flush()
 	c.hashFile.Close()
+}
+
+// emitStats writes a cumulative stats record; the driver uses the last one of
+// each event log, so a child that dies later still accounts for what it ran.
+func (c *Ctx) emitStats() {
+	c.emit(map[string]any{"kind": "stats", "batch": c.Batch, "counters": c.Counters, "samples": c.samples, "nontrivial_local": len(c.seen)})
+	c.ev.Flush()
+	c.hashes.Flush()
 }
 
 func (c *Ctx) emit(rec map[string]any) {
@@ -305,6 +314,11 @@ func (c *Ctx) RunStreams(p *Property, only, resume string) {
 			c.idx = idx
 			c.runCase(s, idx)
 			c.Counters["stream_cases:"+s.Name]++
+			c.sinceStats++
+			if c.sinceStats >= 2000 {
+				c.sinceStats = 0
+				c.emitStats()
+			}
 		}
 		if s.Exhaustive && c.Batch == 0 && resume == "" {
 			c.Counters["exhaustive:"+s.Name] = int64(n)
